@@ -227,7 +227,13 @@ class HierDictDocument(DictDocument):
                 retval = inst
 
             elif issubclass(cls, ComplexModelBase):
-                retval = self._doc_to_object(ctx, cls, inst, validator)
+                # _doc_to_object returns [] for a null document. That's what
+                # deserialize() wants for a method without arguments, but a
+                # null member is just None.
+                if inst is None:
+                    retval = None
+                else:
+                    retval = self._doc_to_object(ctx, cls, inst, validator)
 
             else:
                 if cls_attrs.empty_is_none and inst in (u'', b''):
